@@ -498,15 +498,26 @@ func appReadData(r *eng.Run, p *Pipe, cfg ReadCfg, o *Outcome) {
 }
 
 func appReadFrame(r *eng.Run, p *Pipe, cfg ReadCfg, o *Outcome) {
+	var src io.Reader = p
+	pos := p.Consumed
+	if cfg.Bufio > 0 {
+		br := bufio.NewReaderSize(p, cfg.Bufio)
+		src = br
+		pos = func() int { return p.Consumed() - br.Buffered() }
+		r.Probe("read_frame_source_is_bufio_reader")
+	}
 	for {
 		o.Calls++
-		f, err := ws.ReadFrame(p)
+		f, err := ws.ReadFrame(src)
 		if err != nil {
 			o.Err, o.ErrAt = err, "ReadFrame"
 			return
 		}
+		if int64(len(f.Payload)) != f.Header.Length {
+			r.Failf("wrong_payload", "ReadFrame returned a header announcing %d bytes with a %d byte payload and no error", f.Header.Length, len(f.Payload))
+		}
 		o.Recs = append(o.Recs, Rec{Kind: 'F', Op: byte(f.Header.OpCode), Data: append([]byte(nil), f.Payload...),
-			Hdr: f.Header, HasHdr: true, HdrAt: -1, EndAt: p.Consumed()})
+			Hdr: f.Header, HasHdr: true, HdrAt: -1, EndAt: pos()})
 	}
 }
 
